@@ -109,7 +109,8 @@ def check(ctx, clause):
                           "computation wins for every later input that shares the key" % (norm(d), norm(k)[:30], f.short, ", ".join(missing)),
                           note=not ctx.reachable(f)))
     o2, n2 = lazy_slots(ctx, clause)
-    return obs + o2, n + n2
+    o3, n3 = field_memos(ctx, clause)
+    return obs + o2 + o3, n + n2 + n3
 
 
 def _none_test(test):
@@ -154,4 +155,98 @@ def lazy_slots(ctx, clause):
                                   "lazy slot self.%s in %s is filled once from the argument(s) %s and returned to every later caller "
                                   "whatever they pass: the first call decides for all" % (slot, f.short, ", ".join(vp)),
                                   note=not ctx.reachable(f)))
+    return obs, n
+
+
+def _class_family(f, t):
+    return t.cls is not None and f.cls is not None and (t.cls in f.cls.mro() or f.cls in t.cls.mro())
+
+
+def _fields_read(ctx, f, exprs, depth=4):
+    """self fields read by the expressions, following calls to methods of the same object."""
+    r = ctx.r
+    out, seen, todo = set(), set(), []
+    for e in exprs:
+        for n in ast.walk(e):
+            if is_self_attr(n) and isinstance(n.ctx, ast.Load):
+                out.add(n.attr)
+            if isinstance(n, ast.Call):
+                cs = r.site_of.get(id(n))
+                if cs:
+                    todo.extend((t, 1) for t in cs.targets if _class_family(f, t))
+    while todo:
+        t, d = todo.pop()
+        if t.qual in seen or d > depth:
+            continue
+        seen.add(t.qual)
+        for n in walk_own(t.node):
+            if is_self_attr(n) and isinstance(n.ctx, ast.Load):
+                out.add(n.attr)
+            if isinstance(n, ast.Call):
+                cs = r.site_of.get(id(n))
+                if cs:
+                    todo.extend((tt, d + 1) for tt in cs.targets if _class_family(f, tt))
+    return out
+
+
+def field_memos(ctx, clause):
+    """A memo kept in a field of the object (`self.M[k] = V` next to a presence test on self.M) caches values computed
+    from other fields of the same object.  Every method that changes one of those fields afterwards must invalidate the
+    memo, otherwise entries computed under the old state keep being served."""
+    obs, n = [], 0
+    for f in ctx.p.funcs.values():
+        if f.cls is None or not ctx.reachable(f):
+            continue
+        stores, tests = [], set()
+        for x in walk_own(f.node):
+            if isinstance(x, ast.Assign) and len(x.targets) == 1 and isinstance(x.targets[0], ast.Subscript) and is_self_attr(x.targets[0].value):
+                stores.append((x.targets[0].value.attr, x.targets[0].slice, x.value, x))
+            if isinstance(x, ast.Compare) and len(x.ops) == 1 and isinstance(x.ops[0], (ast.In, ast.NotIn)) and is_self_attr(x.comparators[0]):
+                tests.add(x.comparators[0].attr)
+            if isinstance(x, ast.Call) and isinstance(x.func, ast.Attribute) and x.func.attr == "get" and is_self_attr(x.func.value):
+                tests.add(x.func.value.attr)
+        for M, k, v, st in stores:
+            if M not in tests:
+                continue
+            defs = {}
+            for x in walk_own(f.node):
+                if isinstance(x, ast.Assign):
+                    for t in x.targets:
+                        if isinstance(t, ast.Name):
+                            defs.setdefault(t.id, []).append(x.value)
+            exprs = [v]
+            if isinstance(v, ast.Name):
+                exprs = defs.get(v.id, [])
+            reads = _fields_read(ctx, f, exprs) - {M}
+            if not reads:
+                continue
+            n += 1
+            fam = [c for c in ctx.p.classes.values() if c in f.cls.mro() or f.cls in c.mro()]
+            bad = []
+            for c in fam:
+                for w in c.methods.values():
+                    if w.name == "__init__" or w is f or not ctx.reachable(w):
+                        continue
+                    wrote = set()
+                    for y in walk_own(w.node):
+                        if isinstance(y, (ast.Assign, ast.AugAssign)):
+                            for t in (y.targets if isinstance(y, ast.Assign) else [y.target]):
+                                if is_self_attr(t) and t.attr in reads:
+                                    wrote.add(t.attr)
+                                if isinstance(t, ast.Subscript) and is_self_attr(t.value) and t.value.attr in reads:
+                                    wrote.add(t.value.attr)
+                    if not wrote:
+                        continue
+                    resets = any(
+                        (isinstance(y, ast.Assign) and any(is_self_attr(t, M) for t in y.targets)) or
+                        (isinstance(y, ast.Call) and isinstance(y.func, ast.Attribute) and y.func.attr in ("clear", "pop") and is_self_attr(y.func.value, M))
+                        for y in walk_own(w.node))
+                    if not resets:
+                        bad.append((w, sorted(wrote)))
+            key = "R-MEMO|field-memo|%s|self.%s" % (f.short, M)
+            obs.append(Ob(clause, "R-MEMO", key, f.loc(st), not bad,
+                          "memo self.%s in %s: every method that changes the state its values are computed from (%s) also resets it" % (
+                              M, f.short, ", ".join(sorted(reads))[:80]) if not bad else
+                          "memo self.%s in %s caches values computed from self.%s, which %s changes without invalidating the memo: "
+                          "entries computed under the old state keep being served" % (M, f.short, bad[0][1][0], bad[0][0].short)))
     return obs, n
